@@ -99,11 +99,15 @@ fn openssl_signatures(w: &mut World) {
         w.exec(set(&s("pk"), &hex::decode(kd["point"].as_str().unwrap()).unwrap()));
         w.exec(set(&s("msg"), &hex::decode(it["msg"].as_str().unwrap()).unwrap()));
         w.exec(set(&s("sig"), &hex::decode(it["sig"].as_str().unwrap()).unwrap()));
-        let r = w.exec(json!({"op":"sm2.verify","impl":"lib","pk":s("pk"),"id":Value::Null,"msg":s("msg"),"sig":s("sig")}));
+        // the OpenSSL CLI signs with the EMPTY distinguishing ID when none is given
+        w.exec(set(&s("id"), b""));
+        let r = w.exec(json!({"op":"sm2.verify","impl":"lib","pk":s("pk"),"id":s("id"),"msg":s("msg"),"sig":s("sig")}));
         w.bump(if r["class"] == "Ok" { "probe.corpus.openssl-signature-accepted" } else { "probe.corpus.openssl-signature-rejected" });
+        w.exec(json!({"op":"assert.last","field":"class","equals":"Ok","property":"C03","oracle":"O3.4-openssl-signature","entry":"sm2.verify","class":"openssl","what":"OpenSSL signature (empty ID) not accepted"}));
         w.exec(set(&s("id"), it["id"].as_str().unwrap().as_bytes()));
         w.exec(set(&s("sig"), &hex::decode(it["sig_id"].as_str().unwrap()).unwrap()));
         w.exec(json!({"op":"sm2.verify","impl":"lib","pk":s("pk"),"id":s("id"),"msg":s("msg"),"sig":s("sig")}));
+        w.exec(json!({"op":"assert.last","field":"class","equals":"Ok","property":"C03","oracle":"O3.4-openssl-signature","entry":"sm2.verify","class":"openssl","what":"OpenSSL signature (ID Alice@example) not accepted"}));
     }
 }
 
